@@ -424,7 +424,11 @@ def other_subscriptions(ck: Check) -> int:
         has_req = case % 2 == 0
         client, conn, tr, loop = live.make_client()
         got = []
-        client.subscribe_logs(lambda m: got.append(f"log:{int(bytes(m.message)[1:])}"))
+        # (the requested log level and dump_config are what the DEVICE is asked for; every log message it then sends - of
+        # whatever level - goes to the handler once)
+        log_kw = [{}, {"log_level": M.LogLevel.LOG_LEVEL_INFO}, {"log_level": M.LogLevel.LOG_LEVEL_ERROR, "dump_config": True},
+                  {"dump_config": False}, {"log_level": M.LogLevel.LOG_LEVEL_NONE}][case % 5]
+        client.subscribe_logs(lambda m: got.append(f"log:{int(bytes(m.message)[1:])}"), **log_kw)
         client.subscribe_service_calls(lambda c: got.append(f"svc:{int(c.service[1:])}"))
         if has_req:
             client.subscribe_home_assistant_states(lambda e, a: got.append(f"ha:{int(e[1:])}"), lambda e, a: got.append(f"hareq:{int(e[1:])}"))
@@ -443,7 +447,7 @@ def other_subscriptions(ck: Check) -> int:
                 continue
             k = rng.choice(KINDS)
             once = rng.random() < 0.4
-            msg = {"log": lambda: pb.SubscribeLogsResponse(message=f"l{i}".encode()),
+            msg = {"log": lambda: pb.SubscribeLogsResponse(message=f"l{i}".encode(), level=i % 8),
                    "svc": lambda: pb.HomeassistantServiceResponse(service=f"s{i}"),
                    "ha": lambda: pb.SubscribeHomeAssistantStateResponse(entity_id=f"e{i}", attribute="" if i % 2 else "a", once=once),
                    "adv": lambda: pb.BluetoothLEAdvertisementResponse(address=i),
